@@ -121,7 +121,7 @@ def gen_case(rng: random.Random, tier: str, kind=None):
     early = (kill is None or kill['phase'] in ('during', 'after')) and rng.random() < 0.3
     call_first = bool(kill) and kill['phase'] in ('before', 'during', 'after') and order[0] in BLOCKING and rng.random() < 0.4
     return dict(kind=kind, outcome=outcome, kill=kill, order=order, early=early, call_first=call_first,
-                seed=rng.randrange(1 << 30))
+                slow_reap=kind == 'process' and rng.random() < 0.3, seed=rng.randrange(1 << 30))
 
 
 def boundary_cases():
@@ -142,7 +142,7 @@ def boundary_cases():
                     oc = ['raise', 'killonpickle']
                 order = [first] + [a for a in ACCESSORS if a != first]
                 cases.append(dict(kind='process', outcome=oc, kill=dict(phase=phase, sig=sig), order=order,
-                                  early=False, seed=k))
+                                  early=False, slow_reap=(k % 2 == 0), seed=k))
                 k += 1
     for oc in reps:
         for first in ACCESSORS:
@@ -581,9 +581,35 @@ def _canon_exc(case, e, tbp, where):
     return f'other:{cls}:{e.args!r}'[:200]
 
 
+def _install_slow_reap():
+    """An adversarial but legal OS schedule for the exit status: the collector thread's `waitpid` wins the
+    race for the status of the dead child and the thread is then descheduled for 50 ms before it can store
+    it; a blocking `waitpid` of any other thread is woken 20 ms late.  (Pure delays, installed in the
+    harness process only; nothing in /repo is touched.)  Whoever loses sees ECHILD - the situation of F22."""
+    import threading
+    orig = os.waitpid
+
+    def waitpid(pid, flags):
+        collector = 'ResultCollectorThread' in threading.current_thread().name
+        if not collector and flags == 0:
+            try:
+                os.waitid(os.P_PID, pid, os.WEXITED | os.WNOWAIT)     # wait for the death without reaping
+            except OSError:
+                pass
+            time.sleep(0.02)
+        r = orig(pid, flags)
+        if collector and r[0] != 0:
+            time.sleep(0.05)
+        return r
+
+    os.waitpid = waitpid
+
+
 def _inner(case):
     import threading
     t0 = time.time()
+    if case.get('slow_reap'):
+        _install_slow_reap()
     import mpservice
     from mpservice import multiprocessing as mpm
     from mpservice import threading as mpt
